@@ -367,23 +367,19 @@ func executeRoute(route *ast.Route, ctx *server.Context, interp *interpreter.Int
 		}
 	}
 
-	// ExecuteRoute reads query parameters off Path (extractPathParams strips
-	// anything from "?" on, so it expects them there), and URL.Path omits the
-	// query string. Without this, no interpreted route ever saw a query
-	// parameter. The raw, still-encoded query is what ExtractRawQueryParams
-	// wants: it unescapes each key and value itself.
-	requestPath := ctx.Request.URL.Path
-	if raw := ctx.Request.URL.RawQuery; raw != "" {
-		requestPath += "?" + raw
-	}
-
-	// Create request object for interpreter
+	// URL.Path is percent-decoded and omits the query string. The raw,
+	// still-encoded query is handed over separately (the interpreter unescapes
+	// each key and value itself): joined to the decoded path with "?", a %3F
+	// inside a segment was taken for the start of the query, so the segment was
+	// cut short and its tail parsed as query parameters.
 	request := &interpreter.Request{
-		Path:    requestPath,
-		Method:  ctx.Request.Method,
-		Params:  ctx.PathParams,
-		Body:    requestBody,
-		Headers: make(map[string]string),
+		Path:          ctx.Request.URL.Path,
+		RawQuery:      ctx.Request.URL.RawQuery,
+		QuerySeparate: true,
+		Method:        ctx.Request.Method,
+		Params:        ctx.PathParams,
+		Body:          requestBody,
+		Headers:       make(map[string]string),
 	}
 
 	// Copy headers
